@@ -274,9 +274,7 @@ def rule_guard_before_data(ctx, rep: Report, rid="K4"):
                 i_guard is not None and i_data is not None and i_guard < i_data,
                 f"mxIsDouble/error guard at statement {i_guard}, first mxGetData at statement {i_data}: a "
                 f"non-numeric array would be read as doubles", hloc(f))
-        if t in VECTOR_KINDS:
-            rep.add(rid, f"unwrap<{t}>:single-column check in the guard", has_col_check,
-                    "a matrix passed where a vector is required must be an error (n != 1)", hloc(f))
+        # (what the guard accepts and rejects - double, one column - is decided row by row of its truth table by K10)
     if n < 4:
         raise AnalysisError(f"{rep.prop}/{rid}: {n} vector/matrix unwrap specialisations, 4 expected")
 
